@@ -13,9 +13,10 @@
    [hist evs] are the committed tries, [trie_at (hist evs) j] the trie after j blocks (block j flushes with index j),
    [gmax evs] the largest GC height so far, [occT h T] the number of occurrences of node h in T (a node shared by
    several parents, or the same leaf under many keys, counts several times).
-   [reset = true] is the module with the repair of fixes/F30 (module's trie re-read from the committed root after a
-   dropped block); on histories without dropped blocks it is the same function as the code as it stands
-   ([C11_as_is_without_drops]). *)
+   [reset = true] is the module as it stands since the repair of finding F30 (/repo commit cb1c052: the module's trie
+   is re-read from the committed root after a dropped block); [reset = false] is the module before that commit (the
+   struct copy made by AddMPTBatch shares the refcount map and the interior nodes with the module's trie).  On
+   histories without dropped blocks the two are the same function ([C11_before_fix_same_without_drops]). *)
 From NG Require Import Common.Tactics TrieRC.Model TrieRC.AList TrieRC.Pointwise TrieRC.Slots TrieRC.Proofs
   TrieRC.Read TrieRC.Harmless TrieRC.Theorems.
 Open Scope Z_scope.
@@ -84,30 +85,30 @@ Theorem C11_stale_root_fails_cleanly : forall (nb : hash -> bytes) (dec : bytes 
 Proof. exact stale_root_fails_cleanly. Qed.
 Print Assumptions C11_stale_root_fails_cleanly.
 
-(* uncommitted_harmless.  Full statement, for the code as it stands ([reset = false]: the struct copy made by
-   AddMPTBatch shares the refcount map and the interior nodes with the module's trie): *)
-Definition C11_uncommitted_harmless_statement : Prop := forall nb, uncommitted_harmless_statement nb.
-(* it is FALSE of the code as it stands (finding F30, reproduced on the real stateroot.Module by the harness: kind
-   rc_drop): a node created by the dropped block and kept by the next block is never written *)
-Theorem C11_uncommitted_harmless_refuted : ~ uncommitted_harmless_statement (fun h => h).
-Proof. exact uncommitted_harmless_refuted. Qed.
-Print Assumptions C11_uncommitted_harmless_refuted.
-(* what holds (partial: needs the module's trie to be re-read from the committed root after a drop, fixes/F30):
-   the history with its dropped blocks and the history without them never panic and end in the same table content *)
-Theorem C11_uncommitted_harmless_partial : forall (nb : hash -> bytes) m evs,
+(* uncommitted_harmless: a block computed on a copy and dropped changes no later table — the history with its dropped
+   blocks and the history without them never panic and end in the same table content, in every mode *)
+Theorem C11_uncommitted_harmless : forall (nb : hash -> bytes) m evs,
   evs_ok nb true None None 0 evs ->
   exists s s', run true m init evs = Some s /\ run true m init (remove_drops evs) = Some s' /\
                s_com s = s_com s' /\ s_n s = s_n s' /\
                forall h, lookup (s_tbl s) h = lookup (s_tbl s') h.
 Proof. exact uncommitted_harmless. Qed.
-Print Assumptions C11_uncommitted_harmless_partial.
+Print Assumptions C11_uncommitted_harmless.
 
-(* without dropped blocks the code as it stands is the function all theorems above speak about *)
-Theorem C11_as_is_without_drops : forall (nb : hash -> bytes) m evs,
+(* record of finding F30: the same statement for the module BEFORE commit cb1c052 ([reset = false]) is false — a node
+   created by the dropped block and kept by the next block is never written (witness checked by vm_compute; reproduced
+   on the real stateroot.Module by the harness, corpus/C11/c11.json, before the repair) *)
+Definition C11_uncommitted_harmless_statement_before_fix : Prop := forall nb, uncommitted_harmless_statement nb.
+Theorem C11_uncommitted_harmless_before_fix_refuted : ~ uncommitted_harmless_statement (fun h => h).
+Proof. exact uncommitted_harmless_refuted. Qed.
+Print Assumptions C11_uncommitted_harmless_before_fix_refuted.
+
+(* without dropped blocks the module before the repair is the same function *)
+Theorem C11_before_fix_same_without_drops : forall (nb : hash -> bytes) m evs,
   no_drop evs -> evs_ok nb false None None 0 evs ->
   run false m init evs = run true m init evs /\ evs_ok nb true None None 0 evs.
 Proof. exact as_is_without_drops. Qed.
-Print Assumptions C11_as_is_without_drops.
+Print Assumptions C11_before_fix_same_without_drops.
 
 (* Flush does not depend on the iteration order of the Go map *)
 Theorem C11_flush_order_irrelevant : forall m idx todo1 todo2 rc tbl r1 t1 r2 t2,
